@@ -8,7 +8,13 @@ cd "$VERIF_DIR/harness" || exit 2
 cp /repo/go.sum go.sum || exit 2
 BIN=$(mktemp -d /tmp/vcheck-bin.XXXXXX) || exit 2
 trap 'rm -rf "$BIN"' EXIT INT TERM
-if ! go build -tags verif -o "$BIN/vcheck" ./cmd/vcheck 2>"$BIN/build.err"; then
+COVER=""
+if [ "$2" = "thorough" ] && [ "$1" != "replay" ]; then
+  # thorough tier: measure statement coverage of the subject's packages (recorded in the evidence)
+  COVER="-cover -coverpkg=vharness/cmd/vcheck,github.com/paulsonkoly/calc/builtin,github.com/paulsonkoly/calc/combinator,github.com/paulsonkoly/calc/lexer,github.com/paulsonkoly/calc/memory,github.com/paulsonkoly/calc/parser,github.com/paulsonkoly/calc/types/bytecode,github.com/paulsonkoly/calc/types/node,github.com/paulsonkoly/calc/types/node/bc,github.com/paulsonkoly/calc/types/value,github.com/paulsonkoly/calc/types/token,github.com/paulsonkoly/calc/vm"
+  export VERIF_COVER=1
+fi
+if ! go build $COVER -tags verif -o "$BIN/vcheck" ./cmd/vcheck 2>"$BIN/build.err"; then
   # C18 drives memory.Type's exported methods directly; if their signatures changed, the other checks still run
   if [ "$1" != "C18" ] && go build -tags "verif noc18" -o "$BIN/vcheck" ./cmd/vcheck 2>/dev/null; then
     echo "note: built without C18 (memory API differs): $(head -3 "$BIN/build.err" | tr '\n' ' ')" 1>&2
